@@ -86,6 +86,17 @@ Theorem C14_copy_within_far_corner_rejected :
 Proof. exact op_copy_within_w_rejects. Qed.
 Print Assumptions C14_copy_within_far_corner_rejected.
 
+(** the binary-number path is the plain one wherever that one returns, so it models
+    copy_within for all arguments: C14_copy_within (and the frame / same-as-owned theorems of
+    C04) describe what it does when the destination fits, the theorem above when it does not *)
+Theorem C14_copy_within_any_magnitude_agrees :
+  forall oc v b b' (x0 y0 x1 y1 dx dy : N),
+  (N.of_nat (vrows v) < W)%N -> (dx + (x1 - x0) < W)%N -> (dy + (y1 - y0) < W)%N ->
+  op_copy_within oc v b x0 y0 x1 y1 dx dy = Ok b' ->
+  op_copy_within_w oc v b x0 y0 x1 y1 dx dy = Ok (false, b').
+Proof. exact op_copy_within_w_agrees. Qed.
+Print Assumptions C14_copy_within_any_magnitude_agrees.
+
 (** non-vacuity: on a 4x3, rows 0..2 to row usize::MAX without overflow checks: the row
     sum wraps to 1, row 1 is copied onto row 0, then the call panics; with overflow checks
     nothing is copied *)
